@@ -248,6 +248,8 @@ def check(an: Analysis) -> None:
         if not hs:
             ob.fail(cur, gn.ast, "LookupError of the context variable is not converted to MissingContext")
         for h in hs:
+            if not set(gc.handler_classes(h.ast)) <= {"LookupError"}:  # type: ignore[arg-type]
+                ob.fail(cur, h.ast, f"the MissingContext handler catches {gc.handler_classes(h.ast)}: a MissingState raised by the lookup itself (which runs inside the same try) would be reported as MissingContext")  # type: ignore[arg-type]
             for kind, node, path in classify_handler(gc, h.ast):  # type: ignore[arg-type]
                 ok = False
                 if kind == "raise-other":
